@@ -16,23 +16,34 @@ Do(o) ==
   /\ vwbud' = vwbud - 1 /\ vwnid' = vwnid + 1
 Init == /\ \E k \in Inits : vwst = InitState(k)
         /\ vwbud = Budget /\ vwnid = 30 /\ vwlast = [post |-> TRUE, res |-> "ok"]
-\* callers pass references that are valid when they pass them (an add with a dangling reference is the caller's fault)
-AAddTexture      == Do(O("add_texture", vwnid, 0, 0, 0))
-ARemoveTexture   == \E i \in Ix : Do(O("remove_texture", 0, i, 0, 0))
-AAddMaterial     == \E t \in Ix, u \in {0} : t < Len(vwst.tex) /\ Do(O("add_material", vwnid, t, u, 0))
-ARemoveMaterial  == \E i \in Ix : Do(O("remove_material", 0, i, 0, 0))
-ACreateGroup     == Do(O("create_group", vwnid, 0, 0, 0))
-AAddGroup        == \E g \in Ix, sh \in {<<0, -1>>, <<3, 0>>, <<2, 1>>} : sh[2] < Len(vwst.mat) /\ Do(O("add_group", vwnid, g, sh[1], sh[2]))
-ARemoveGroup     == \E i \in Ix : Do(O("remove_group", 0, i, 0, 0))
-AAddVertex       == \E g \in Ix : Do(O("add_vertex", vwnid, g, 0, 0))
-ARemoveVertex    == \E g \in Ix, v \in Ix : Do(O("remove_vertex", 0, g, v, 0))
-AAddDoodad       == Do(O("add_doodad", vwnid, 0, 0, 0))
-ARemoveDoodad    == \E i \in Ix : Do(O("remove_doodad", 0, i, 0, 0))
-AAddDoodadSet    == \E a \in Ix, n \in Ix : a + n <= Len(vwst.dd) /\ Do(O("add_doodad_set", vwnid, a, n, 0))
-ARemoveDoodadSet == \E i \in Ix : Do(O("remove_doodad_set", 0, i, 0, 0))
-AConvert         == \E w \in {0, 2} : Do(O("convert", 0, w, 0, 0))
-ASaveRoot        == Do(O("save_root", 0, 0, 0, 0))
-ASaveGroup       == \E i \in Ix : Do(O("save_group", 0, i, 0, 0))
+\* callers pass references that are valid when they pass them (an add with a dangling reference is the caller's fault);
+\* indices of removals / lookups range over Ix: in range, the last one, out of range
+Cand(s, nid) ==
+     {O("add_texture", nid, 0, 0, 0), O("create_group", nid, 0, 0, 0), O("add_doodad", nid, 0, 0, 0), O("save_root", 0, 0, 0, 0)}
+  \cup {O(n, 0, i, 0, 0) : n \in {"remove_texture", "remove_material", "remove_group", "remove_doodad", "remove_doodad_set", "save_group"}, i \in Ix}
+  \cup {O("add_material", nid, t, u, 0) : t \in {x \in Ix : x < Len(s.tex)}, u \in {x \in {0, 1} : x < Len(s.tex)}}
+  \cup {O("add_group", nid, g, sh[1], sh[2]) : g \in Ix, sh \in {x \in {<<0, -1>>, <<3, 0>>, <<2, 1>>} : x[2] < Len(s.mat)}}
+  \cup {O("add_vertex", nid, g, 0, 0) : g \in Ix}
+  \cup {O("remove_vertex", 0, g, v, 0) : g \in Ix, v \in Ix}
+  \cup {O("add_doodad_set", nid, q[1], q[2], 0) : q \in {x \in Ix \X Ix : x[1] + x[2] <= Len(s.dd)}}
+  \cup {O("convert", 0, w, 0, 0) : w \in {0, 2}}
+Act(name) == \E o \in Cand(vwst, vwnid) : o.op = name /\ Do(o)
+AAddTexture      == vwbud > 0 /\ Act("add_texture")
+ARemoveTexture   == vwbud > 0 /\ Act("remove_texture")
+AAddMaterial     == vwbud > 0 /\ Act("add_material")
+ARemoveMaterial  == vwbud > 0 /\ Act("remove_material")
+ACreateGroup     == vwbud > 0 /\ Act("create_group")
+AAddGroup        == vwbud > 0 /\ Act("add_group")
+ARemoveGroup     == vwbud > 0 /\ Act("remove_group")
+AAddVertex       == vwbud > 0 /\ Act("add_vertex")
+ARemoveVertex    == vwbud > 0 /\ Act("remove_vertex")
+AAddDoodad       == vwbud > 0 /\ Act("add_doodad")
+ARemoveDoodad    == vwbud > 0 /\ Act("remove_doodad")
+AAddDoodadSet    == vwbud > 0 /\ Act("add_doodad_set")
+ARemoveDoodadSet == vwbud > 0 /\ Act("remove_doodad_set")
+AConvert         == vwbud > 0 /\ Act("convert")
+ASaveRoot        == vwbud > 0 /\ Act("save_root")
+ASaveGroup       == vwbud > 0 /\ Act("save_group")
 Next == \/ AAddTexture \/ ARemoveTexture \/ AAddMaterial \/ ARemoveMaterial \/ ACreateGroup \/ AAddGroup \/ ARemoveGroup
         \/ AAddVertex \/ ARemoveVertex \/ AAddDoodad \/ ARemoveDoodad \/ AAddDoodadSet \/ ARemoveDoodadSet
         \/ AConvert \/ ASaveRoot \/ ASaveGroup
